@@ -25,6 +25,9 @@ FAILING = [
     ("drop table db1.s1.nt", "UnknownTable"), ("alter table nt add column z int", "UnknownTable"), ("describe table nt", "UnknownTable"),
     ("create table c1 as select * from nt", "UnknownTable"), ("create view c2 as select * from nt", "UnknownTable"),
     ("create table c3 clone nt", "UnknownTable"),
+    # failing replacements of an existing table (its rows AND its recorded comment / VARCHAR lengths must survive)
+    ("create or replace table t as select * from nt", "UnknownTable"), ("create or replace table t clone nt", "UnknownTable"),
+    ("create or replace table t as select nocol from s2.other", "UnknownColumn"), ("create or replace table db1.s1.t as select * from nodb.s1.t", "UnknownDatabase"),
     ("merge into nt using t on nt.id = t.id when matched then delete", "UnknownTable"),
     # unknown view / schema / database
     ("drop view nv", "UnknownView"), ("drop view s1.nv", "UnknownView"), ("describe view nv", "UnknownTable"),
@@ -64,7 +67,7 @@ def setup():
     fs = FakeSnow()
     conn = fs.connect(database="db1", schema="s1")
     cur = conn.cursor()
-    for sql in ("create table t (id int, name varchar)", "insert into t values (1, 'a'), (2, null)", "create view vw as select id from t", "create schema s2",
+    for sql in ("create table t (id int, name varchar(20)) comment = 'the t table'", "insert into t values (1, 'a'), (2, null)", "create view vw as select id from t", "create schema s2",
                 "create database db2", "create table s2.other (x int)", "insert into s2.other values (7)"):
         cur.execute(sql)
     return fs, conn
@@ -101,7 +104,11 @@ def dump(fs, conn, other):
     variables = dict(conn.variables._variables)  # noqa: SLF001
     own_view = sorted(map(repr, conn._duck_conn.execute('select * from "DB1"."S1"."T"').fetchall()))  # noqa: SLF001
     others_view = sorted(map(repr, other.cursor().execute("select * from db1.s1.t").fetchall()))
-    return {"tables": tabs, "schemas": schs, "columns": cols, "rows": rows, "ctx": ctx, "variables": variables, "own_view": own_view, "others_view": others_view}
+    # the Snowflake-side metadata, as this session sees it (inside its transaction, if one is open) and as everybody else does
+    meta_own = [sorted(map(repr, conn._duck_conn.execute(f"select * from DB1.information_schema.{x}").fetchall())) for x in ("_fs_tables_ext", "_fs_columns_ext")]  # noqa: SLF001
+    meta_all = [sorted(map(repr, admin.execute(f"select * from DB1.information_schema.{x}").fetchall())) for x in ("_fs_tables_ext", "_fs_columns_ext")]
+    return {"tables": tabs, "schemas": schs, "columns": cols, "rows": rows, "ctx": ctx, "variables": variables, "own_view": own_view, "others_view": others_view,
+            "metadata_own": meta_own, "metadata_committed": meta_all}
 
 
 def main():
